@@ -134,9 +134,18 @@ def paths_uncached(rel, env, cached, counts):
         if id(rel) in cached:
             # a second path through a materialization evaluated earlier in this same evaluation: only a pure
             # pass-through (markers down to a leaf, whose payload object becomes the cache) touches a leaf again
+            # ... or a target that the Processor prunes down to such a pass-through: a chain with a statically empty
+            # operand is replaced by its other operand, so materialize(chain(empty, leaf)) caches the leaf's own payload
+            from lsst.daf.relation import Chain
+
             t = rel
-            while isinstance(t, MarkerRelation):
-                t = t.target
+            while True:
+                if isinstance(t, MarkerRelation):
+                    t = t.target
+                elif isinstance(t, BinaryOperationRelation) and isinstance(t.operation, Chain) and (t.lhs.max_rows == 0 or t.rhs.max_rows == 0):
+                    t = t.rhs if t.lhs.max_rows == 0 else t.lhs
+                else:
+                    break
             if isinstance(t, LeafRelation):
                 i = env.leaf_index(t)
                 counts[i] = counts.get(i, 0) + 1
